@@ -125,13 +125,23 @@ def gen_fs(rng, max_steps=14):
 # ---------------------------------------------------------------------------------------------------------------
 # file_system, real files and real fsnotify notifications
 
-def gen_fslive(rng, max_steps=12):
+def gen_fslive(rng, max_steps=12, during=False):
+    """during: rule files are replaced while `Start` is inside the first processor call of its initial load (the first
+    file that holds a rule set): the file being loaded, files not yet opened, files opened already, new files."""
     state = {}          # k -> file spec currently on disk
     moved = set()       # versions that left the pool of their source
     last = {}
     init = []
+    must = rng.randrange(NSRC) if during else None
     for k in range(NSRC):
-        if rng.random() < 0.3:
+        if k == must:
+            spec = {"st": "valid", "v": pick_version(rng, k)}
+            if rng.random() < 0.2:
+                spec["link"] = True
+            init.append({"k": k, "file": spec})
+            state[k] = spec
+            last[k] = spec["v"]
+        elif rng.random() < (0.45 if during else 0.3):
             spec, v = content(rng, k, kinds=("valid", "empty"), weights=(80, 20))
             if spec.get("bad"):
                 spec, v = {"st": "empty", "i": 0}, None
@@ -140,7 +150,7 @@ def gen_fslive(rng, max_steps=12):
                 spec["link"] = True                       # symbolic link present before the provider starts
             elif r < 0.42:
                 spec, v = {"st": "missing", "link": True}, None      # dangling link
-            elif r < 0.45:
+            elif r < 0.45 and not during:
                 spec, v = {"st": "dir", "link": True}, None          # link to a directory: Start fails on it
             init.append({"k": k, "file": spec})
             state[k] = spec
@@ -150,6 +160,37 @@ def gen_fslive(rng, max_steps=12):
 
     def in_use():
         return {s["v"] for s in state.values() if s["st"] == "valid"} | moved
+
+    if during:
+        held = min(k for k in state if state[k]["st"] == "valid")      # ReadDir order = order of the names s0 .. s3
+        case["during"] = []
+        for n in range(rng.choice([1, 1, 2, 3])):
+            k = held if (n == 0 and rng.random() < 0.7) else rng.randrange(NSRC)
+            spec, v = content(rng, k, None, avoid=in_use(), kinds=("valid", "empty", "invalid", "gone"),
+                              weights=(72, 10, 4, 14))
+            if spec is None:
+                if k not in state:
+                    continue
+                spec = {"st": "missing"}
+            elif spec.get("bad"):
+                spec, v = {"st": "valid", "v": spec["v"] - 1000}, spec["v"] - 1000
+            if spec["st"] == "valid" and rng.random() < 0.15:
+                spec["link"] = True
+            if v:
+                last[k] = v
+            if spec["st"] == "missing":
+                del state[k]
+            else:
+                state[k] = spec
+            case["during"].append({"k": k, "file": spec})
+        if not case["during"]:
+            v = pick_version(rng, held, None, avoid=in_use())
+            state[held] = {"st": "valid", "v": v}
+            last[held] = v
+            case["during"].append({"k": held, "file": state[held]})
+        if held in state and not state[held].get("link") and rng.random() < 0.6:
+            # the notification after the last change of the file: brings it to its latest content
+            case["steps"].append({"do": "chmod", "k": held, "mode": rng.randrange(2), "file": state[held]})
 
     for _ in range(rng.randint(3, max_steps)):
         present = sorted(state)
@@ -418,7 +459,11 @@ def gen_k8s(rng, max_steps=10, relists=1):
     return case
 
 
-GENS = {"fs": gen_fs, "fslive": gen_fslive, "http": gen_http, "blob": gen_blob, "k8s": gen_k8s}
+def gen_fsduring(rng):
+    return gen_fslive(rng, max_steps=6, during=True)
+
+
+GENS = {"fs": gen_fs, "fslive": gen_fslive, "fsduring": gen_fsduring, "http": gen_http, "blob": gen_blob, "k8s": gen_k8s}
 
 
 def gen_case(rng, kind):
